@@ -252,6 +252,10 @@ func (p *Parser) parseIndexExpression(left Expression) Expression {
 
 	p.nextToken()
 
+	if !p.curTokenIsOperand() {
+		return nil
+	}
+
 	expression.Index = p.parseIdentifier()
 
 	if expression.Token.Type == DOT {
